@@ -1,6 +1,6 @@
 """Per-property configuration for ./check (pipelines, trusted base, generation rule)."""
 
-TB_TRANSLATED = "function-level translator translate/rs2lean.py (Rust subset -> Lean over Model/Rt.lean) and the semantics of Rt's primitives; validated on every run by executing the translated functions on all correspondence lines (three-way agreement) and, for x86-64, tied to the model by the bridge theorems of lean/InjModel/Tie"
+TB_TRANSLATED = "function-level translator translate/rs2lean.py (Rust subset -> Lean over Model/Rt.lean) and the semantics of Rt's primitives (fixed-width arithmetic per build profile, casts, slices, strings as char lists with UTF-8 byte offsets, trim = Unicode White_Space); for the interface layer the translation is an effect skeleton: calls on the object graph are logged by source path, pattern matches on opaque values are decided by the oracle (so Vec::pop order, mutex semantics and the meaning of the back-end calls are assumed, not derived); validated on every run by executing the translated functions on the correspondence lines (three-way agreement) and tied to the models by the bridge theorems of lean/InjModel/Tie"
 
 TB_COMMON = [
     "Lean 4.33 kernel; axioms limited to propext, Quot.sound, Classical.choice (audited per theorem from #print axioms)",
